@@ -5,7 +5,7 @@ SPEC_FLAT = True   # the specification expectation is compared with the flattene
 RULE = ("E <method> <arg>: one Encoder method call on the real crate vs the extracted Coq model (chunk by chunk) and vs the reference "
         "encoder enc_pref of Spec/Cbor.v. Exhaustive: all u8, i8, u16, i16 arguments and all 256 simple values; boundary-dense "
         "(every 2^k+-3) plus seeded random arguments for the 32/64-bit methods, Int, char, tag/array/map heads; byte/text strings of "
-        "lengths 0,1,23,24,255,256,65535,65536 and random. A case is non-trivial when the argument needs more than the initial byte "
+        "lengths 0,1,23,24,255,256,65535,65536 and random. ES: random forests (depth <= 3, definite and indefinite containers, chunked strings, tags) rendered as balanced Encoder call sequences, expectation = the generator's own reference serialiser. A case is non-trivial when the argument needs more than the initial byte "
         "(argument >= 24 or a payload is present); distinct = distinct case lines.")
 ASSUMPTIONS = ["the chunk-recording sink sees exactly the bytes any other sink would (C13 covers the sinks)",
                "f16 conversion results are covered by C12; here only the framing of Encoder::f16 is compared with the model"]
@@ -36,10 +36,47 @@ def generate(tier, rng):
         try: s.decode("utf-8")
         except UnicodeDecodeError: s = b"x" * n
         out.append("E str %s" % hexs(s))
+    # balanced call sequences: random forests rendered as Encoder calls; expectation = the generator's own serialiser
+    import struct
+    def calls(t):
+        k = t[0]
+        if k == "u": return ["%s:%d" % (rng.choice([m for m, hi in (("u8", 255), ("u16", 65535), ("u32", (1 << 32) - 1), ("u64", U64)) if t[1] <= hi]), t[1])]
+        if k == "n":
+            v = -1 - t[1]
+            return ["%s:%d" % (rng.choice([m for m, lo in (("i8", -128), ("i16", -32768), ("i32", -(1 << 31)), ("i64", -(1 << 63)), ("int", -(1 << 64))) if v >= lo]), v)]
+        if k == "b": return ["bytes:" + hexs(t[1])]
+        if k == "t": return ["str:" + hexs(t[1])]
+        if k == "bi": return ["begin_bytes"] + ["bytes:" + hexs(c) for c in t[1]] + ["end"]
+        if k == "ti": return ["begin_str"] + ["str:" + hexs(c) for c in t[1]] + ["end"]
+        if k == "s": return [{20: "bool:false", 21: "bool:true", 22: "null", 23: "undefined"}.get(t[1], "simple:%d" % t[1]) if rng.random() < 0.5 else "simple:%d" % t[1]]
+        if k == "f": return ["f32:%d" % t[2]] if t[1] == 4 else ["f64:%d" % t[2]]
+        if k == "a": return ["array:%d" % len(t[1])] + [c for x in t[1] for c in calls(x)]
+        if k == "ai": return ["begin_array"] + [c for x in t[1] for c in calls(x)] + ["end"]
+        if k == "m": return ["map:%d" % (len(t[1]) // 2)] + [c for x in t[1] for c in calls(x)]
+        if k == "mi": return ["begin_map"] + [c for x in t[1] for c in calls(x)] + ["end"]
+        if k == "g": return ["tag:%d" % t[1]] + calls(t[2])
+    def rtree(depth):
+        r = rng.randrange(0, 14 if depth > 0 else 8)
+        big = rng.choice([0, 23, 24, 255, 256, 65535, 65536, (1 << 32) - 1, 1 << 32, U64, rng.getrandbits(rng.randrange(1, 65))])
+        if r == 0: return ("u", big)
+        if r == 1: return ("n", big)
+        if r == 2: return ("b", bytes(rng.getrandbits(8) for _ in range(rng.choice([0, 1, 23, 24, 30]))))
+        if r == 3: return ("t", utf8_samples(rng, 1)[0])
+        if r == 4: return ("bi", [bytes(rng.getrandbits(8) for _ in range(rng.randrange(0, 30))) for _ in range(rng.randrange(0, 3))])
+        if r == 5: return ("ti", utf8_samples(rng, rng.randrange(0, 3)))
+        if r == 6: return ("s", rng.choice(list(range(0, 24)) + list(range(32, 256))))
+        if r == 7: return ("f", rng.choice([4, 8]), rng.getrandbits(32)) if rng.random() < 0.5 else ("f", 8, rng.getrandbits(64))
+        if r in (8, 9): return (rng.choice(["a", "ai"]), [rtree(depth - 1) for _ in range(rng.choice([0, 1, 2, 3, 24]) if depth > 1 else rng.randrange(0, 3))])
+        if r in (10, 11): return (rng.choice(["m", "mi"]), [rtree(depth - 1) for _ in range(2 * rng.randrange(0, 3))])
+        return ("g", big, rtree(depth - 1))
+    for _ in range(20000 if big else 3000):
+        forest = [rtree(3) for _ in range(rng.randrange(1, 3))]
+        out.append("ES %s =%s" % (";".join(c for t in forest for c in calls(t)), hexs(b"".join(ser_tree(t) for t in forest))))
     return out
 
 def nontrivial(line, impl):
     t = line.split()
+    if t[0] == "ES": return t[1].count(";") >= 2
     if len(t) < 3: return False
     if t[1] in ("bytes", "str"): return t[2] != "-"
     try: v = int(t[2])
@@ -47,4 +84,6 @@ def nontrivial(line, impl):
     return v >= 24 or v < -24
 
 def classify(line, impl):
-    return line.split()[1] + ("/err" if impl.startswith("err") else "")
+    t = line.split()
+    if t[0] == "ES": return "ES:%d" % min(9, t[1].count(";") + 1)
+    return t[1] + ("/err" if impl.startswith("err") else "")
